@@ -1,7 +1,7 @@
 CONSTANTS
   HashMode = "real"
   Bug = "none"
-  Sweeps = {"pairs", "near", "deep", "hier", "xtwin", "xnear", "xdeep", "self", "selfn", "forms"}
+  Sweeps = {"pairs", "near", "deep", "hier", "xtwin", "xnear", "xdeep", "self", "selfn", "forms", "heap", "heapd", "heapx"}
   PairDepth = 2
   NearDepth = 3
   DeepDepth = 2
@@ -9,6 +9,7 @@ CONSTANTS
   XDepth = 2
   SelfDepth = 2
   FormDepth = 3
+  HeapDepth = 3
   Wide = TRUE
   EmitCases = TRUE
 INIT Init
